@@ -76,7 +76,8 @@ CLAIMS.update({
          'lookup_symbol_from_sysv_hash_tab, setup_gnu_ht, bloom_word_at, get_elf_class_size_in_bytes, '
          'lookup_symbol_from_gnu_hash_tab (arbitrary section content and size up to 16 MiB, arbitrary symbols, any libelf call may '
          'fail), get_version_definition_for_versym (arbitrary version-definition section), the stt/stb/stv mappings and the per-symbol region of symtab::load_ (every st_info/st_other/st_shndx, names already recorded '
-         'as exported / with a CRC), read_and_convert_DW_at_bit_offset and die_member_offset on ANY member DIE (attributes present '
+         'as exported / with a CRC, a COMMON symbol whose name other symbols carry (bounded: <= 3), a <name>.cfi symbol with any '
+         'number of symbols called <name>), read_and_convert_DW_at_bit_offset and die_member_offset on ANY member DIE (attributes present '
          'or absent in any combination); a version reported by the version lookups has a non-empty name (what the hash-table '
          'lookups assert). Loops are '
          'closed by inductive loop contracts (loop-rule generator).',
